@@ -205,7 +205,7 @@ def _child(task, corpus_file, outf):
         import io
         real_stdout = sys.stdout
         for case in corpus["cases"]:
-            if unit.stdout == "sink":
+            if unit.stdout == "sink" and os.environ.get("VERIF_STDOUT") != "closed":
                 sys.stdout = io.StringIO()
             try:
                 unit.check(case)
